@@ -42,6 +42,10 @@ def flatOut (n d p : Nat) (out : Nat → Out BigF) : List BigF :=
   ((List.range n).flatMap fun i => (List.range d).map fun a => (out i).R a) ++
   ((List.range n).flatMap fun i => (List.range d).flatMap fun a => (List.range p).map fun l => (out i).J a l)
 
+/-- flat outputs `(R' : N·d, J' : (N·d) × p)` in wire order -/
+def flatPair (n d p : Nat) (out : (Nat → BigF) × (Nat → Nat → BigF)) : List BigF :=
+  ((List.range (n * d)).map out.1) ++ ((List.range (n * d)).flatMap fun r => (List.range p).map fun l => out.2 r l)
+
 def b01 (b : Bool) : BigF := if b then BigF.one else BigF.zero
 
 /-- selection tokens: kernels are natural numbers, `N` is `None` -/
@@ -69,6 +73,25 @@ def fmtC : CSel Nat Nat → String
   | .auto c => "A" ++ fmtK c
   | .user c => s!"U{c}"
 
+/-- `n` kernel specs, then the rest -/
+def parseSpecs : Nat → List String → Except String (Array (Spec BigF) × List String)
+  | 0, ts => .ok (#[], ts)
+  | n+1, ts => do
+    let (s, r) ← specOf ts
+    let (ss, r') ← parseSpecs n r
+    return (#[s] ++ ss, r')
+
+/-- `nres` residual tensors `N d R… J…` (Jacobian with `p` columns), then the rest -/
+def parseRes : Nat → Nat → List String → Except String (Array (Nat × Nat × Array BigF × Array BigF) × List String)
+  | 0, _, ts => .ok (#[], ts)
+  | k+1, p, nn :: dd :: r => do
+    let n ← nat nn; let d ← nat dd
+    let (hd, tl) ← take (n * d + n * d * p) r
+    let xs ← nums hd
+    let (rs, r') ← parseRes k p tl
+    return (#[(n, d, (xs.take (n * d)).toArray, (xs.drop (n * d)).toArray)] ++ rs, r')
+  | _, _, _ => .error "arity"
+
 def opsC09 : List (String × Handler) := [
   -- c09.kernel <kind> p1 p2 p3 x…          kernel(input) on a flattened tensor; err negative = AssertionError
   ("c09.kernel", fun ts => do
@@ -86,16 +109,17 @@ def opsC09 : List (String × Handler) := [
   ("c09.fast", fun ts => do
       let (s, rest) ← specOf ts
       let (n, d, p, R, J) ← batchOf rest
-      let out := fun i => fastOf s.d1 d (fun a => getA R (i * d + a)) (fun a l => getA J ((i * d + a) * p + l))
-      return fmt (flatOut n d p out)),
+      -- the model's own flat layout (`fastFlat`): flat residual (N·d) and Jacobian rows (N·d) × p
+      let out := fastFlat s.d1 d (fun r => getA R r) (fun r l => getA J (r * p + l))
+      return fmt (flatPair n d p out)),
   -- c09.triggs <kind> p1 p2 p3 N d p R… J… Triggs: R', J', then the mask (N values 0/1)
   ("c09.triggs", fun ts => do
       let (s, rest) ← specOf ts
       let (n, d, p, R, J) ← batchOf rest
       let Ri := fun (i : Nat) => fun a => getA R (i * d + a)
-      let out := fun i => triggsOf s.d1 s.d2 d (Ri i) (fun a l => getA J ((i * d + a) * p + l))
+      let out := triggsFlat s.d1 s.d2 d (fun r => getA R r) (fun r l => getA J (r * p + l))
       let ms := (List.range n).map fun i => let x := normSq d (Ri i); b01 (mask x (s.d2 x))
-      return fmt (flatOut n d p out ++ ms)),
+      return fmt (flatPair n d p out ++ ms)),
   -- c09.lossone <kind> p1 p2 p3 N d R…     kernel(r.square().sum(-1)).sum()
   ("c09.lossone", fun ts => do
       let (s, rest) ← specOf ts
@@ -106,6 +130,51 @@ def opsC09 : List (String × Handler) := [
         if xs.length ≠ n * d then throw "arity" else
         let R := xs.toArray
         return fmt [lossOne s.val n d (fun i a => getA R (i * d + a))]
+      | _ => throw "arity"),
+  -- c09.construct <kind> p1 p2 p3 x…      constructor assertions, then the call: err ctor | err negative | values
+  ("c09.construct", fun ts => do
+      let (s, rest) ← specOf ts
+      let xs ← nums rest
+      if !s.ctorOk then throw "ctor" else
+      match s.construct xs with
+      | none => throw "negative"
+      | some ys => return fmt ys),
+  -- c09.step <nres> <kernel-arg> <corrector-arg> <nk> (<kind> p1 p2 p3)*nk <p> then per residual: N d R… J…
+  --   reply: lossTotal, then the p components of the stacked J'ᵀR' (model: lossTotal, stepJtR); err index = IndexError
+  ("c09.step", fun ts => do
+      match ts with
+      | n :: rest => do
+        let nres ← nat n
+        let (ka, rest) ← argOf rest
+        let (ca, rest) ← argOf rest
+        match rest with
+        | nk :: rest => do
+          let nk ← nat nk
+          let (specs, rest) ← parseSpecs nk rest
+          match rest with
+          | pp :: rest => do
+            let p ← nat pp
+            let (res, rest) ← parseRes nres p rest
+            if !rest.isEmpty then throw "arity" else
+            let ident : Spec BigF := ⟨.poly, BigF.one, BigF.zero, BigF.zero⟩
+            let specOfK : KSel Nat → Spec BigF := fun c => match c with
+              | .trivial => ident
+              | .ker i => specs.getD i ident
+            let sem : CSel Nat Nat → CorrSem BigF := fun c => match c with
+              | .trivial => none
+              | .auto kc => some (false, (specOfK kc).d1, (specOfK kc).d2)
+              | .user cid => let sp := specs.getD (cid / 2) ident; some (cid % 2 == 1, sp.d1, sp.d2)
+            let ks := robustKernels ka
+            let cs : List (CSel Nat Nat) := correctors ka ca
+            if (List.range nres).any (fun j => (stepCorrector cs j).isNone) then throw "index" else
+            let resL := fun j => let e := res.getD j (0, 0, #[], #[]); (e.1, e.2.1, fun i a => getA e.2.2.1 (i * e.2.1 + a))
+            let resS := fun j => let e := res.getD j (0, 0, #[], #[])
+              (e.1, e.2.1, (fun i a => getA e.2.2.1 (i * e.2.1 + a)), fun i a l => getA e.2.2.2 ((i * e.2.1 + a) * p + l))
+            let loss := lossTotal (fun c => (specOfK c).val) ks nres resL
+            let g := (List.range p).map fun l => stepJtR sem cs nres resS l
+            return fmt (loss :: g)
+          | _ => throw "arity"
+        | _ => throw "arity"
       | _ => throw "arity"),
   -- c09.select <nres> <kernel-arg> <corrector-arg>
   --   reply: nres loss-kernel tokens (T | K<id> | -) then nres step-corrector tokens (T | AT | AK<id> | U<id> | -)
